@@ -800,7 +800,11 @@ class SrvAdapter:
                 'ev': p.data[0] if p.packet_type == 5 and isinstance(
                     p.data, list) and p.data and isinstance(p.data[0], str)
                 else '',
-                'owed': p.attachment_count, 'atts': toks(p.attachments)}
+                'owed': p.attachment_count,
+                # (received attachments only: anything longer than the frames
+                # the client really sent is space reserved on its say-so)
+                'atts': toks(p.attachments) if len(p.attachments) <= 16
+                else ['?%d-slots-reserved' % len(p.attachments)]}
         sess = {}
         for t, s in self.socks.items():
             if t in self.closed:
